@@ -162,6 +162,10 @@ func cmdVC(args []string) int {
 type Baseline struct {
 	Property    string   `json:"property"`
 	Obligations []string `json:"obligations"` // "fn::name"
+	// obligations generated on the unchanged tree that no solver decided there:
+	// not claimed, tolerated. Any other obligation that fails is new code
+	// failing its contract.
+	Open []string `json:"open"`
 }
 
 type KnownFinding struct {
@@ -190,6 +194,7 @@ func cmdCheck(mode string, args []string) int {
 	repo := fs.String("repo", "/repo", "")
 	prop := fs.String("property", "", "property id")
 	tier := fs.String("tier", "", "quick|thorough")
+	openOnly := fs.Bool("openonly", false, "baseline: keep the claimed obligations, only record the open ones")
 	fs.Parse(args)
 	if *tier == "" {
 		*tier = os.Getenv("VERIF_TIER")
@@ -285,12 +290,36 @@ func cmdCheck(mode string, args []string) int {
 	if mode == "baseline" {
 		var bl Baseline
 		bl.Property = *prop
+		if *openOnly {
+			var old Baseline
+			if b, err := os.ReadFile(blFile); err == nil {
+				json.Unmarshal(b, &old)
+			}
+			claimed := map[string]bool{}
+			for _, o := range old.Obligations {
+				claimed[o] = true
+			}
+			for i := range results {
+				k := results[i].Fn + "::" + results[i].Name
+				if claimed[k] {
+					if results[i].Status != "discharged" {
+						fmt.Printf("WARNING: claimed obligation not discharged in this run: %s\n", k)
+					}
+					results[i].Status = "discharged"
+				} else if results[i].Status == "discharged" {
+					results[i].Status = "unclaimed" // goes to the open list: tolerated either way
+				}
+			}
+		}
 		for _, r := range results {
 			if r.Status == "discharged" {
 				bl.Obligations = append(bl.Obligations, r.Fn+"::"+r.Name)
+			} else {
+				bl.Open = append(bl.Open, r.Fn+"::"+r.Name)
 			}
 		}
 		sort.Strings(bl.Obligations)
+		sort.Strings(bl.Open)
 		os.MkdirAll(filepath.Dir(blFile), 0o755)
 		b, _ := json.MarshalIndent(bl, "", " ")
 		os.WriteFile(blFile, append(b, '\n'), 0o644)
@@ -378,11 +407,39 @@ func cmdCheck(mode string, args []string) int {
 			knownHit = append(knownHit, kf.Obligation)
 		}
 	}
-	for _, r := range results {
+	openBL := map[string]bool{}
+	for _, o := range bl.Open {
+		openBL[o] = true
+	}
+	for i := range results {
+		r := &results[i]
 		k := r.Fn + "::" + r.Name
-		if !inBL[k] && r.Status != "discharged" {
-			open = append(open, fmt.Sprintf("%s [%s] %s %s", k, r.Status, r.Pos, r.Src))
+		if inBL[k] || r.Status == "discharged" {
+			continue
 		}
+		if openBL[k] || strings.HasPrefix(r.Name, "cover/") || strings.HasPrefix(r.Name, "vacuity/") || byName[k] != r {
+			open = append(open, fmt.Sprintf("%s [%s] %s %s", k, r.Status, r.Pos, r.Src))
+			continue
+		}
+		isKnown := false
+		for _, kf := range known.Findings {
+			if kf.Property == *prop && kf.Obligation == k {
+				isKnown = true
+			}
+		}
+		if isKnown {
+			continue
+		}
+		// an obligation the unchanged tree did not generate (new path, new
+		// call, new back edge) and that does not follow from the contracts
+		violations++
+		nOb++
+		rp, found := replayViolation(w, vcs, *prop, k, r, dir)
+		suffix := ""
+		if !found {
+			suffix = " no-failing-input-found"
+		}
+		fmt.Printf("VIOLATION property=%s replay=%s%s\n", *prop, rp, suffix)
 	}
 	if nOb == 0 {
 		violations++
